@@ -45,6 +45,19 @@ def _parse(e: ast.AST, xname: str, depth=0) -> Dict[Word, Rat]:
                 continue
             return {w: c * k for w, c in inner.items()}
         raise Uninterpretable("product %s" % ast.unparse(e))
+    if isinstance(e, ast.Call) and ast.unparse(e.func) in ("torch.add", "torch.sub") and len(e.args) == 2:
+        # torch.add(a, b, alpha=c) is a + c*b
+        a, b = _parse(e.args[0], xname), _parse(e.args[1], xname)
+        kw = {k.arg: k.value for k in e.keywords}
+        if set(kw) - {"alpha"}:
+            raise Uninterpretable("keywords of %s" % ast.unparse(e))
+        k = _coef(kw["alpha"]) if "alpha" in kw else C(1)
+        if ast.unparse(e.func) == "torch.sub":
+            k = -k
+        out = dict(a)
+        for w, c in b.items():
+            out[w] = out.get(w, C(0)) + c * k
+        return {w: c for w, c in out.items() if not c.is_zero()}
     if isinstance(e, ast.Call) and isinstance(e.func, ast.Attribute) and e.func.attr in ("mv", "_mv", "rmv", "_rmv") and len(e.args) == 1:
         recv = ast.unparse(e.func.value)
         adj = e.func.attr in ("rmv", "_rmv")
@@ -432,3 +445,41 @@ def scalar_validation(model: Model, R: RuleResult) -> int:
         R.bad(rm, rm.node, "__rmul__ must delegate to __mul__ so that the same scalar validation applies")
         n += 1
     return n
+
+
+def matrix_products(model: Model, R: RuleResult):
+    """MatrixLinearOperator's products decided in index notation (domains/indexexpr.py): _mv is sum_q mat[p,q] x[q], _rmv is
+    sum_p conj(mat[p,q]) x[p], _mm / _rmm the same with a column index, _fullmatrix is mat - whatever the spelling (column- or
+    row-vector form, matmul / einsum, .mH / transpose().conj()).  Returns the set of method qualnames it decided (the transpose-without-
+    conjugation lint leaves those to this rule)."""
+    from ..domains import indexexpr as ix
+    LINOP = "xitorch/_core/linop.py"
+    cls = model.cls(LINOP, "MatrixLinearOperator")
+    decided = set()
+    spec = {"_mv": ("pq,q->p", False, 1), "_rmv": ("pq,p->q", True, 1), "_mm": ("pq,qr->pr", False, 2), "_rmm": ("pq,pr->qr", True, 2)}
+    for name, (es, cj, xr) in spec.items():
+        m = cls.methods.get(name)
+        if m is None:
+            continue
+        me, px = m.params()[:2]
+        mat, x = ix.IX.atom("mat", 2), ix.IX.atom("x", xr)
+        ev = ix.IndexEval({"%s.mat" % me: mat, px: x})
+        try:
+            ev.run(m.node.body)
+            got = ev.returned
+            want = ix.einsum(es, [ix.conj(mat) if cj else mat, x])
+        except ix.BatchMix as e:
+            decided.add(m.qualname)
+            R.bad(m, m.node, "MatrixLinearOperator.%s: %s - the operator and its operand may both be batched ((*B, p, q) and (*B, q)), so the product mixes the batch "
+                  "axis with the matrix axes (wrong shape or silently wrong values)" % (name, e))
+            continue
+        except ix.Unsupported as e:
+            R.note("MatrixLinearOperator.%s: not interpretable in index notation (%s)" % (name, e))
+            continue
+        decided.add(m.qualname)
+        if got is not None and got.same(want):
+            R.ok(m.fq, "MatrixLinearOperator.%s == %s" % (name, want.show()))
+        else:
+            R.bad(m, m.node, "MatrixLinearOperator.%s must be %s (%s); it is %s" % (
+                name, want.show(), "the product with the conjugate transpose of the matrix" if cj else "the product with the matrix", got.show() if got is not None else None))
+    return decided
